@@ -3,6 +3,39 @@ import glob, os, sys
 import vlib
 
 
+def selftest():
+    """Demonstrate the binding: a corrupted field and a dropped event of a real recorded history must be rejected."""
+    import json
+    d = vlib.sub("selftest")
+    pe = os.path.join(d, "penv.json")
+    json.dump(dict(vars=[dict(n=list("HOME"), v=list("/h"))]), open(pe, "w"))
+    files = vlib.run_workers("hist", ["--mode", "data", "--n", "1", "--len", "25", "--seed", "3"], 1, d, "st", env={"HOME": "/h"}, clean_env=True)
+    rec = json.loads(open(files[0]).readline())
+    changing = [i for i, s in enumerate(rec["steps"]) if s["same"] == "f" and s["post"]["f"]]
+    if len(changing) < 3:
+        return "selftest history has too few state changes"
+
+    def judge(r, name):
+        f = os.path.join(d, name + ".w00.ndjson")
+        with open(f, "w") as fh:
+            fh.write(json.dumps(r) + "\n")
+        _, classes = vlib.tlc_validate("Trace_Vfs", [f], extra_env=dict(PENV=pe))
+        return [c for c in classes if c["c"][0] == "BAD"]
+
+    if judge(rec, "clean"):
+        return None          # the unchanged tree already has mismatches here: the property checks report them, not the selftest
+    r1 = json.loads(json.dumps(rec))
+    i = changing[1]
+    r1["steps"][i]["post"]["f"][0]["d"] = r1["steps"][i]["post"]["f"][0]["d"] + [33]      # corrupt one field: an extra byte in a file
+    if not judge(r1, "corrupt"):
+        return "a corrupted post-state was accepted"
+    r2 = json.loads(json.dumps(rec))
+    del r2["steps"][changing[0]]                                                         # drop one event
+    if not judge(r2, "drop"):
+        return "a history with a dropped event was accepted"
+    return None
+
+
 def main():
     bins = sorted(os.path.basename(p)[:-3] for p in glob.glob(os.path.join(vlib.HARNESS, "src", "bin", "*.rs")))
     try:
@@ -17,5 +50,9 @@ def main():
         if not ok:
             bad += 1
             print("SANY failed for %s:\n%s" % (m, out[-1500:]), file=sys.stderr)
+    st = selftest()
+    if st:
+        print("setup: binding selftest FAILED: %s" % st, file=sys.stderr)
+        return 2
     print("setup: %d binaries built, %d modules parsed, %d failures" % (len(bins), len(glob.glob(os.path.join(vlib.SPEC, "*.tla"))), bad))
     return 2 if bad else 0
